@@ -42,7 +42,17 @@ def run(ctx, model_ok):
                             "sin(fl(2pi))*d/2 ~ 1.2e-16 d in double, equal in exact arithmetic)",
                             "frames: 'the last path row is always displayed' and 'no row is drawn twice' hold only for the show_path classes named in "
                             "frames_contains_last_partial / frames_rows_strictly_increasing_partial (witness theorems show the exclusions are necessary)",
-                            "CylinderSegment, Tetrahedron, TriangularMesh, Triangle, Dipole, Sensor graphics are not mapped back by the oracle"]
+                            "CylinderSegment, Tetrahedron, TriangularMesh, Triangle, Dipole, Sensor graphics are not mapped back by the oracle",
+                            "placement: place_is_pose / place_inverse / place_preserves_extent are about a function `place` DEFINED INSIDE Props/C19.lean (f.(s.(R.v)+p) for an abstract group action, "
+                            "R any group element, not an isometry); it is not a Model/ function, the driver does not run it and no stream compares it with place_and_orient_model3d (only the "
+                            "orientation=None, integer-position call inside make_Cuboid is streamed): rotation, scale and length factor of the real function are tied by the display oracle only",
+                            "Cuboid and Tetrahedron models are over the integers (doubled coordinates): theorems and stream rows cover integer dimensions / positions / vertices only; their sign and "
+                            "index tables are hand-copied literals pinned by the disp stream, not regenerated",
+                            "'spans the full extent': Cylinder graphic x = -d/2 only for even N and y = +-d/2 only when 4 | N (default 50: not); Sphere graphic: only the z-extent (poles); "
+                            "CylinderSegment: the 8 corners",
+                            "path line through the path positions, 'displaying never modifies objects, styles or defaults' (style_temp_edit), axis title unit = factor applied by rescale_traces, "
+                            "collections / nesting: no model and no theorem, display oracle only; unit_factor_table is a decide over the 18 recorded outputs of get_unit_factor and says nothing "
+                            "about which factor show() applies"]
 
 
 def replay(ctx, payload):
